@@ -160,13 +160,17 @@ func VerifHarness_C18_hierarchy_len2() { verifC18Hierarchy(2) }
 func VerifHarness_C18_hierarchy_len3() { verifC18Hierarchy(3) }
 
 // one derivation step, every parent key / chain code / depth / index
-func verifC18Derive(shortX bool) {
+func verifC18Derive(xlen int) {
 	ec := tss.S256()
 	pk, _ := verifParent("par")
 	full := new(big.Int).Lsh(big.NewInt(1), 248)
-	if shortX {
+	switch xlen {
+	case 0: // any number (1..32) of leading zero bytes
 		v.Assume("x-has-leading-zero-bytes", pk.X.Cmp(full) < 0)
-	} else {
+	case 31: // exactly one leading zero byte
+		v.Assume("x-has-one-leading-zero-byte", v.LtInt(pk.X, full))
+		v.Assume("x-has-one-leading-zero-byte", v.LeInt(new(big.Int).Lsh(big.NewInt(1), 240), pk.X))
+	default:
 		v.Assume("full-length-x", pk.X.Cmp(full) >= 0)
 	}
 	index := v.NondetUint32("index")
@@ -192,8 +196,9 @@ func verifC18Derive(shortX bool) {
 
 // x coordinate of the parent with its full 32 bytes / with 1..32 leading zero bytes (the
 // padding of ser256 in the HMAC input and the fingerprint)
-func VerifHarness_C18_derive_child_key_fullx()  { verifC18Derive(false) }
-func VerifHarness_C18_derive_child_key_shortx() { verifC18Derive(true) }
+func VerifHarness_C18_derive_child_key_fullx()  { verifC18Derive(32) }
+func VerifHarness_C18_derive_child_key_x31()    { verifC18Derive(31) }
+func VerifHarness_C18_derive_child_key_shortx() { verifC18Derive(0) }
 
 // Extended key serialisation: payload layout per BIP32
 //   version(4) || depth(1) || parent fingerprint(4) || child number(4, big-endian) || chain code(32) || serP(K)(33)
@@ -258,3 +263,51 @@ func VerifHarness_C18_string_rejects_bad_checksum() {
 	v.Assert("short-input-refused", err != nil)
 	v.Reach("end")
 }
+
+// a concrete parent key whose x coordinate has leading zero bytes (the first k*G with a
+// 31-byte x, then the first with at most 30 bytes), chain code / depth / index symbolic:
+// unlike the symbolic-key harnesses above, a counterexample found here replays natively,
+// because it does not depend on an uninterpreted coordinate value
+func verifC18ConcreteShortX(maxLen int) {
+	ec := tss.S256()
+	var K *crypto.ECPoint
+	for k := int64(1); k < 20000; k++ {
+		P := crypto.ScalarBaseMult(ec, big.NewInt(k))
+		if len(P.X().Bytes()) <= maxLen {
+			K = P
+			break
+		}
+	}
+	if K == nil {
+		return
+	}
+	pk := &ExtendedKey{
+		PublicKey:  ecdsa.PublicKey{Curve: ec, X: K.X(), Y: K.Y()},
+		Depth:      v.NondetByte("par_depth"),
+		ChildIndex: v.NondetUint32("par_childindex"),
+		ChainCode:  v.NondetBytes("par_chaincode", 32),
+		ParentFP:   v.NondetBytes("par_parentfp", 4),
+		Version:    v.NondetBytes("par_version", 4),
+	}
+	index := v.NondetUint32("index")
+	gotIL, got, err := DeriveChildKey(index, pk, ec)
+	il, child, cc, fp, ok := verifRefDerive(index, pk)
+	if pk.Depth == 255 {
+		v.Assert("refused-at-max-depth", err != nil)
+		v.Reach("max-depth")
+		return
+	}
+	if !ok {
+		v.Assert("refused-when-bip32-refuses", err != nil)
+		v.Reach("refused")
+		return
+	}
+	v.Assert("derives-when-bip32-derives", err == nil)
+	if err != nil {
+		return
+	}
+	verifCheckChild("step", got, gotIL, index, pk, il, child, cc, fp)
+	v.Reach("end")
+}
+
+func VerifHarness_C18_derive_concrete_x31() { verifC18ConcreteShortX(31) }
